@@ -357,5 +357,28 @@ def rule_l8(repo):
     return res
 
 
+def rule_l9(repo):
+    """A cached theory is reused only if the file is the one that was cached: the recorded timestamp must
+    *equal* the current one.  An ordering test (`<=`) also accepts a file that was replaced by an older revision
+    (restored backup, rsync -t), which is then never re-read in this process."""
+    res = RuleResult('C12.L9', 'a cached theory is reused only when the recorded timestamp equals the file\'s', floor=1)
+    f = repo.func(BASIC, 'load_theory_cache')
+    cfg = cfg_of(f.node)
+    tests = [t for t in cfg.test_nodes() if compare_parts(t.ast) and "'timestamp'" in src(t.ast, 200) and
+             not (compare_parts(t.ast)[0] in (ast.In, ast.NotIn))]
+    need(tests, 'load_theory_cache: comparison with the recorded timestamp not found')
+    for t in tests:
+        op = compare_parts(t.ast)[0]
+        # the side on which the cache is returned as it is
+        reuse = 'true' if op is not ast.NotEq else 'false'
+        early = [r for r in cfg.return_nodes() if r.id in cfg.reach_from([b for b, l in t.succ if l == reuse], skip_nodes=[n for n in cfg.nodes if n.kind == 'stmt' and isinstance(n.ast, ast.Assign)])]
+        ok = op in (ast.Eq, ast.NotEq)
+        res.add('%s :: load_theory_cache :: reuse-test(%s)' % (BASIC, src(t.ast, 50)), ok,
+                'equality of the two timestamps' if ok else
+                '`%s` reuses the cache whenever the file is not *newer*: a file replaced by a revision with an older modification time is never '
+                're-read, and later loads keep the first revision' % src(t.ast, 50), '%s:%d' % (BASIC, t.lineno))
+    return res
+
+
 def rules(repo):
-    return [rule_l1(repo), rule_l2(repo), rule_l3(repo), rule_l4(repo), rule_l5(repo), rule_l6(repo), rule_l7(repo), rule_l8(repo)]
+    return [rule_l1(repo), rule_l2(repo), rule_l3(repo), rule_l4(repo), rule_l5(repo), rule_l6(repo), rule_l7(repo), rule_l8(repo), rule_l9(repo)]
